@@ -34,15 +34,21 @@ def findEq (info : Bytes) : BitVec 64 :=
 /-- `(info.substr(0, loc), info.substr(loc + 1))` -/
 def splitRecord (info : Bytes) : Attr :=
   let loc := findEq info
-  (info.take loc.toNat, info.drop (mod_value_start loc).toNat)
+  ((info.drop mod_field_start.toNat).take (mod_field_len loc).toNat, info.drop (mod_value_start loc).toNat)
+
+/-- `!pdata[i]` on the byte the checked read delivered -/
+def skipByteIsNul (c : Bytes) : Bool :=
+  match c with
+  | [x] => mod_skip_isnul x.toBitVec
+  | _ => false
 
 /-- `while (i < size && !pdata[i]) i++` -/
 def skipNul (data : Option Bytes) (size : BitVec 64) : Nat → BitVec 64 → M (BitVec 64)
   | 0, _ => throw (.fuel "modinfo/skip")
   | f + 1, i =>
-    if mod_loop_cond i size then do
+    if mod_skip_cond i size then do
       let c ← rdRange "modinfo/skip" data i.toNat 1
-      if c = [0] then skipNul data size f (i + 1) else pure i
+      if skipByteIsNul c then skipNul data size f (mod_skip_incr i) else pure i
     else pure i
 
 /-- the outer loop of `process_section` -/
@@ -59,9 +65,8 @@ def parseLoop (data : Option Bytes) (size : BitVec 64) : Nat → BitVec 64 → L
 
 /-- the constructor: `process_section()` on the section after `get_data()` -/
 def parse (b : SecBuf) : M (List Attr) :=
-  match b.getData.data with
-  | none => pure []
-  | some a => parseLoop (some a) b.size (b.size.toNat + 2) 0 []
+  let data := b.getData.data
+  if mod_has_data data.isSome then parseLoop data b.size (b.size.toNat + 2) mod_start [] else pure []
 
 /-- `get_attribute_num()` -/
 def num (content : List Attr) : BitVec 32 := mod_num (BitVec.ofNat 64 content.length)
